@@ -627,6 +627,8 @@ class Node:
             child.parent = None
         self.children = list()
         self.children_by_name = dict()
+        # Children affinity counts are added back by add_node.
+        self.affinity_counters = collections.Counter()
 
     def add_node(self, node):
         """Add child node, set the traits and propagate traits up.
